@@ -50,11 +50,12 @@ func (d *coalSeq) do(op string) {
 			res = "fresh"
 		}
 		d.w.Emit(trace.E{"ev": "Insert", "i": item, "res": res, "len": d.q.Len()})
-	case 'N':
+	case 'N', 'X':
 		// Never block: a background context when Next can answer at once,
 		// an already cancelled one when it would have to wait.
+		// 'X': a cancelled context although something is pending - what is pending is delivered all the same.
 		ctx := context.Background()
-		if d.q.Len() == 0 && !d.q.IsClosed() {
+		if (d.q.Len() == 0 && !d.q.IsClosed()) || (op[0] == 'X' && d.q.Len() > 0) {
 			ctx = cancelledCtx
 		}
 		it, dup, err := d.q.Next(ctx)
@@ -76,7 +77,7 @@ func (d *coalSeq) do(op string) {
 	}
 }
 
-var coalOps = []string{"Ia", "Ib", "Ic", "N", "C", "Q"}
+var coalOps = []string{"Ia", "Ib", "Ic", "N", "C", "Q", "X"}
 
 func coalesceSeq(args []string) error {
 	fs := flag.NewFlagSet("coalesce seq", flag.ContinueOnError)
@@ -136,7 +137,7 @@ func coalesceRand(args []string) error {
 			case x < 6:
 				d.do("I" + items[r.Intn(k)])
 			case x < 9:
-				d.do("N")
+				d.do([]string{"N", "N", "X"}[r.Intn(3)])
 			default:
 				d.do("Q")
 			}
